@@ -313,6 +313,9 @@ def tls_env(name: str = "default", prepare=None) -> dict:
 def activate(env: dict, **opts):
     """point mitmproxy.ctx at `env`, reset every option except confdir to its default, then apply `opts`"""
     m = env["tctx"].master
+    if env.get("active") == opts and mitmproxy.ctx.master is m:
+        return  # same configuration as the previous case: contexts may stay cached, exactly as in a running proxy
+    env["active"] = dict(opts)
     mitmproxy.ctx.master = m
     mitmproxy.ctx.options = m.options
     mitmproxy.ctx.log = m.log
